@@ -26,13 +26,13 @@ def run(ctx, out):
     sup = core.build_sup()
     d0 = ctx.work.fresh("c14")
     out.rule = ("FIFOs, sockets, character devices (majors/minors incl. > 255 and > 20 bit) x modes x umask {0,022,077} x sole "
-                "source or inside a tree x fresh / existing destination entry (file, same kind) x --no-clobber x both drivers; "
+                "source or inside a tree x fresh / existing destination entry (file, same kind, link to a file, link to a directory) x --no-clobber x both drivers; "
                 "block devices must fail; non-trivial = every case (a node is created or refused); distinct = case tuple")
     cases = []
     for kind in KINDS:
         for umask in (0, 0o022, 0o077):
             for pos in ("sole", "tree"):
-                for existing in (None, "file", "same"):
+                for existing in (None, "file", "same", "link-to-file", "link-to-dir"):
                     for nc in (False, True):
                         if quick and rng.random() < 0.45:
                             continue
@@ -59,6 +59,13 @@ def run(ctx, out):
             open(tpath, "wb").write(b"existing")
         elif c["existing"] == "same":
             mk(c["kind"], tpath, 0o600, (9, 9))
+        elif c["existing"] == "link-to-file":
+            open(os.path.join(d, "elsewhere.txt"), "wb").write(b"the link's target, a bystander")
+            os.symlink(os.path.join(d, "elsewhere.txt"), tpath)
+        elif c["existing"] == "link-to-dir":
+            os.makedirs(os.path.join(d, "elsewhere.d"))
+            open(os.path.join(d, "elsewhere.d", "inside"), "wb").write(b"bystander")
+            os.symlink(os.path.join(d, "elsewhere.d"), tpath)
         before = os.lstat(tpath) if c["existing"] else None
         argv = [ctx.bins["xcp"], "--driver", c["driver"], "-w", "2"] + (["--no-clobber"] if c["nc"] else []) + argv_tail
         r = xcp.run_supervised(sup, argv, d, d, tag="n", umask=c["umask"], timeout_ms=20000)
